@@ -460,8 +460,10 @@ class TransactionManager(Elaboratable):
     def elaborate(self, platform):
         self.transactions = DependencyContext.get().get_dependency(TransactionsKey())
         self.methods = DependencyContext.get().get_dependency(DefinedMethodsKey())
+        provided_methods = DependencyContext.get().get_dependency(ProvidedMethodsKey())
 
-        for elem in chain(self.transactions, self.methods):
+        # relations can be declared on methods defined by `provide` too; they apply to the providing body
+        for elem in chain(self.transactions, self.methods, provided_methods):
             for relation in elem.relations:
                 elem._body.relations.append(RelationBase(**{**dataclass_asdict(relation), "end": relation.end._body}))
             for elem2 in elem.simultaneous_list:
